@@ -362,4 +362,73 @@ theorem contract_all [AddCommMonoid K] (sizes : List Nat) (x : Idx → K) (o : I
 
 end ProdFubini
 
+/-! ### the dtype tag never influences a value -/
+section DtIrrelevant
+variable {K : Type}
+
+theorem weightLoop_dt [Field K] (subs : List (SubDom K)) (p : Int) :
+    ∀ (l : List Nat) (fct : K) (dt : DT) (a : Idx → K) (fct' : K) (dt' : DT) (a' : Idx → K),
+      weightLoop subs p l fct dt a = .ok (fct', dt', a') →
+      ∀ d, ∃ d'', weightLoop subs p l fct d a = .ok (fct', d'', a') := by
+  intro l
+  induction l with
+  | nil =>
+    intro fct dt a fct' dt' a' h d
+    simp only [weightLoop, Except.ok.injEq, Prod.mk.injEq] at h
+    obtain ⟨rfl, _, rfl⟩ := h
+    exact ⟨d, rfl⟩
+  | cons ind t ih =>
+    intro fct dt a fct' dt' a' h d
+    simp only [weightLoop] at h ⊢
+    cases hd : (subs.getD ind default).dvol with
+    | none => simp only [hd] at h; cases h
+    | scalar w => simp only [hd] at h ⊢; exact ih _ _ _ _ _ _ h d
+    | vector w => simp only [hd] at h ⊢; exact ih _ _ _ _ _ _ h _
+
+/-- the dtype tag does not influence any value: s_mean of two fields that differ only in the tag -/
+theorem sMean_dt [Field K] [DecidableEq K] (f : Fld K) (d : DT) (v : K) (h : sMean f = .ok v) :
+    sMean { f with dt := d } = .ok v := by
+  unfold sMean at h ⊢
+  cases hi : sIntegrate f with
+  | error e => simp only [hi] at h; cases h
+  | ok s =>
+    have hi' : sIntegrate { f with dt := d } = .ok s := by
+      unfold sIntegrate at hi ⊢
+      cases hsw : scalarWeight f.subs .none with
+      | error e => simp only [hsw] at hi; cases hi
+      | ok r =>
+        cases r with
+        | some swgt => simp only [hsw] at hi ⊢; exact hi
+        | none =>
+          simp only [hsw] at hi ⊢
+          unfold weight at hi ⊢
+          simp only [parseSpaces] at hi ⊢
+          cases hw : weightLoop f.subs 1 (List.range f.subs.length) 1 f.dt f.val with
+          | error e => simp only [hw] at hi; cases hi
+          | ok r =>
+            obtain ⟨fct, dt', a⟩ := r
+            obtain ⟨d'', hw'⟩ := weightLoop_dt f.subs 1 _ 1 f.dt f.val fct dt' a hw d
+            simp only [hw] at hi
+            simp only [hw']
+            by_cases h1 : ipow fct 1 = 1
+            · simp only [h1, if_true] at hi ⊢
+              exact hi
+            · simp only [h1, if_false] at hi ⊢
+              exact hi
+    simp only [hi] at h
+    simp only [hi']
+    exact h
+
+theorem sel_false_replicate_true : ∀ (k : Nat) (i : Idx), sel false (List.replicate k true) i = [] := by
+  intro k
+  induction k with
+  | zero => intro i; cases i <;> simp [sel]
+  | succ k ih =>
+    intro i
+    cases i with
+    | nil => simp [List.replicate_succ, sel]
+    | cons a t => simp [List.replicate_succ, sel, ih t]
+
+end DtIrrelevant
+
 end NiftyVerif.FieldM
